@@ -259,6 +259,63 @@ func (c *Ctx) checkSharedPointers(r *Report, rule string) {
 			}
 		})
 	}
+	// value fields of the shared configuration that are containers with mutating methods (sync.Map, atomic values,
+	// embedded repository structs): a session calling a mutator on the field's address writes shared state
+	nContainer := 0
+	var containerBad []string
+	for _, f := range funcs {
+		if !session[f] {
+			continue
+		}
+		allInstrs(f, func(i ssa.Instruction) {
+			ci, ok := i.(ssa.CallInstruction)
+			if !ok || ci.Common().IsInvoke() || len(ci.Common().Args) == 0 {
+				return
+			}
+			fa, ok := ci.Common().Args[0].(*ssa.FieldAddr)
+			if !ok {
+				return
+			}
+			nt := namedOf(derefType(fa.X.Type()))
+			if nt == nil || nt.Obj().Pkg() == nil {
+				return
+			}
+			tname := strings.TrimPrefix(nt.Obj().Pkg().Path(), modPath+"/") + "." + nt.Obj().Name()
+			if !shared[tname] {
+				return
+			}
+			nContainer++
+			nm := calleeName(ci.Common())
+			mut := false
+			switch {
+			case strings.HasPrefix(nm, "(*sync.Map)."):
+				switch strings.TrimPrefix(nm, "(*sync.Map).") {
+				case "Store", "LoadOrStore", "LoadAndDelete", "Delete", "Swap", "CompareAndSwap", "CompareAndDelete", "Clear":
+					mut = true
+				}
+			case strings.HasPrefix(nm, "sync/atomic.") || strings.HasPrefix(nm, "(*sync/atomic."):
+				mut = !strings.Contains(nm, "Load")
+			case strings.HasPrefix(nm, "(*sync.Mutex).") || strings.HasPrefix(nm, "(*sync.RWMutex).") || strings.HasPrefix(nm, "(*sync.Once)."):
+			default:
+				if g := staticCallee(ci.Common()); g != nil && strings.HasPrefix(fnPkgPath(g), modPath) && g.Blocks != nil {
+					// a repository method on the field: mutating if it stores through its receiver
+					allInstrs(g, func(j ssa.Instruction) {
+						if st, ok := j.(*ssa.Store); ok {
+							if fa2, ok := st.Addr.(*ssa.FieldAddr); ok && len(g.Params) > 0 && fa2.X == ssa.Value(g.Params[0]) {
+								mut = true
+							}
+						}
+					})
+				}
+			}
+			if mut {
+				containerBad = append(containerBad, c.instrPos(i)+": "+fnKey(f)+" calls "+nm+" on "+tname+"."+fieldName(fa.X.Type(), fa.Field))
+			}
+		})
+	}
+	sort.Strings(containerBad)
+	r.cond(len(containerBad) == 0, rule, "shared-config:value-fields:never-mutated-by-sessions", "-", fmt.Sprintf("no mutating method is called on a field of the shared configuration structs in session code (%d method calls on such fields examined)", nContainer),
+		"a session modifies a container that lives in the configuration struct shared by ALL sessions ("+strings.Join(containerBad, "; ")+"): what one client's session stores there (a cache entry, a counter) changes what another client's session sends or accepts")
 	sort.Slice(viols, func(a, b int) bool { return viols[a].pos < viols[b].pos })
 	bySeed := map[string][]string{}
 	for _, v := range viols {
